@@ -249,7 +249,16 @@ Definition run_functor (c : conn) (f : functor) (k : kres) : res (conn * list ev
   | FDestroy => connectDestroyed c
   end.
 
+(* operations a user can only issue once it holds the connection pointer, i.e. after UP *)
+Definition user_op (o : op) : bool :=
+  match o with
+  | Send _ _ | FSendCheck _ | FSendEnq _ _ | Retrieve _ | Shutdown | XShutdown | ForceClose
+  | ForceCloseDelay | StartRead | StopRead | XStartRead | XStopRead => true
+  | _ => false
+  end.
+
 Definition step (c : conn) (o : op) : res (conn * list event) :=
+  if user_op o && cstate_eqb (st c) Connecting then Rejected else
   match o with
   | Establish =>
       if cstate_eqb (st c) Connecting then
